@@ -1,3 +1,38 @@
-import Chiritori.Spec.Holds
+import Chiritori.Lemmas.StackParse
+/-
+  C10 — Tags pair by name with stack discipline; stray tags are inert text.
+
+  The reference is the left-to-right stack machine `Spec.stackParse` (Spec/Holds.lean):
+  an opening tag pushes a frame; a closing tag `/name` (any number of leading slashes, as the code
+  strips them all) whose name is open somewhere pops to the *innermost* frame of that name, demoting
+  every frame above it to plain text and hoisting their children; every other tag-shaped token that
+  does not parse, every closer without an open element and every opener still open at the end is text.
+-/
 namespace Chiritori.Props.C10
+open Chiritori Chiritori.Spec
+
+def Statement : Prop :=
+  ∀ (ds de : List Char) (toks : List Token),
+    parse ds de toks = stackParse ds de toks ∧ flattenParts (parse ds de toks) = toks
+
+theorem c10 : Statement := fun ds de toks => ⟨parse_eq_stackParse ds de toks, parse_flatten ds de toks⟩
+
+/-- termination of the real recursion is part of the result: `tokens.length + 1` units of fuel always suffice,
+    i.e. more fuel never changes the outcome -/
+theorem c10_source (src ds de : List Char) :
+    parseSource src ds de = stackParse ds de (tokenize src ds de) ∧
+    flattenParts (parseSource src ds de) = tokenize src ds de :=
+  c10 ds de (tokenize src ds de)
+
+/-! Concrete instances (kernel-evaluated): crossing tags, same-name nesting, stray closer. -/
+def lt : List Char := "<".toList
+def gt : List Char := ">".toList
+
+/-- `<a><b></a></b>`: `</a>` closes `<a>`, `<b>` and `</b>` are text inside / after it -/
+example : renderParts (parseSource "<a><b></a></b>".toList lt gt) = [1, 0, 6, 0, 3, 2, 0, 10] := by decide +kernel
+/-- `<a><a></a>`: the closer closes the innermost `<a>`; the outer one is demoted to text -/
+example : renderParts (parseSource "<a><a></a>".toList lt gt) = [0, 0, 1, 3, 6, 2] := by decide +kernel
+/-- `</z>x<a>y</a>`: a stray closer does not stop the following element from being recognised -/
+example : renderParts (parseSource "</z>x<a>y</a>".toList lt gt) = [0, 0, 0, 4, 1, 5, 9, 0, 8, 2] := by decide +kernel
+
 end Chiritori.Props.C10
